@@ -194,7 +194,7 @@ def _enum(lib, c):
     return [("SUBJ", lib.parameter_types.EnumeratedParameterType("SUBJ_T", enc, enumeration=dict(enum), unit=c["unit"]))]
 
 
-@subject("boolean-time", [("kind", ["boolean", "absolute", "relative"]), ("unit", [None, "s"]), ("scale", [None, 0.25, 1.0]), ("offset", [None, 0.0, -7.5]),
+@subject("boolean-time", [("kind", ["boolean", "absolute", "relative"]), ("unit", [None, "s"]), ("scale", [None, 0.25, 1.0, 2.0 ** -16]), ("offset", [None, 0.0, -7.5, 315964800.125]),       # (2^-16 and the GPS epoch offset need more than 6 significant digits)
                           ("epoch", [None, "TAI", "2000-01-01T12:00:00"]), ("offset_from", [None, "SEQC"]), ("encoding", ["int", "float"])])
 def _booltime(lib, c):
     K = lib.calibrators
